@@ -222,6 +222,156 @@ def _close_paths(body):
     return body + [ast.Return(value=ast.Constant(value=None))]
 
 
+def _final_loop_returns_to_breaks(body):
+    """a bare `return` at the own level (through ifs) of a loop that ends the function is a `break` (no else-branch on the loop)"""
+    tail = list(body)
+    while tail and isinstance(tail[-1], ast.Return) and (tail[-1].value is None or (isinstance(tail[-1].value, ast.Constant) and tail[-1].value.value is None)):
+        tail.pop()
+    if not tail or not isinstance(tail[-1], (ast.For, ast.While)) or tail[-1].orelse:
+        return body
+
+    def conv(stmts):
+        out = []
+        for st in stmts:
+            if isinstance(st, ast.Return) and (st.value is None or (isinstance(st.value, ast.Constant) and st.value.value is None)):
+                out.append(ast.copy_location(ast.Break(), st))
+            elif isinstance(st, ast.If):
+                st.body = conv(st.body)
+                st.orelse = conv(st.orelse)
+                out.append(st)
+            else:
+                out.append(st)
+        return out
+    tail[-1].body = conv(tail[-1].body)
+    return tail
+
+
+def _fold_param_tests(fn, states):
+    """copy of the function with the tests on the parameters in `states` (name -> 'none' | 'notnone') decided and the dead branches
+    removed; None when nothing was decided"""
+    fn = copy.deepcopy(fn)
+    hit = [False]
+
+    def verdict(t):
+        if isinstance(t, ast.UnaryOp) and isinstance(t.op, ast.Not):
+            v = verdict(t.operand)
+            return None if v is None else (not v)
+        if isinstance(t, ast.Compare) and len(t.ops) == 1 and isinstance(t.left, ast.Name) and t.left.id in states \
+                and isinstance(t.comparators[0], ast.Constant) and t.comparators[0].value is None and isinstance(t.ops[0], (ast.Is, ast.IsNot)):
+            isnone = states[t.left.id] == 'none'
+            return isnone if isinstance(t.ops[0], ast.Is) else not isnone
+        if isinstance(t, ast.Name) and states.get(t.id) == 'none':
+            return False
+        return None
+
+    def fold(stmts):
+        out = []
+        for st in stmts:
+            for field in ('body', 'orelse', 'finalbody'):
+                sub = getattr(st, field, None)
+                if isinstance(sub, list) and sub and isinstance(sub[0], ast.stmt) and not isinstance(st, DEFS):
+                    setattr(st, field, fold(sub))
+            if isinstance(st, ast.Try):
+                for h in st.handlers:
+                    h.body = fold(h.body) or [ast.copy_location(ast.Pass(), st)]
+            if isinstance(st, ast.If):
+                v = verdict(st.test)
+                if v is not None:
+                    hit[0] = True
+                    out.extend(st.body if v else st.orelse)
+                    if out and isinstance(out[-1], (ast.Return, ast.Raise, ast.Break, ast.Continue)):
+                        break          # what follows in this block is dead
+                    continue
+                if not st.body:
+                    st.body = [ast.copy_location(ast.Pass(), st)]
+            elif isinstance(st, (ast.For, ast.While, ast.With)) and not st.body:
+                st.body = [ast.copy_location(ast.Pass(), st)]
+            out.append(st)
+        return out
+    fn.body = fold(fn.body) or [ast.Pass()]
+    return fn if hit[0] else None
+
+
+def _search_loop_form(body, rname='_found'):
+    """PRE; <loop that returns from inside>; POST   ->   PRE; <loop: `return X` -> `rname = X; break`> else: POST'; return rname
+
+    (POST' is POST with every path closed by `rname = <returned value>`).  Only for a loop without else-branch and without
+    breaks of its own, whose returns sit under plain ifs; None when the body does not have this shape."""
+    hot = [i for i, st in enumerate(body) if _contains_return(st)]
+    loops = [i for i in hot if isinstance(body[i], (ast.For, ast.While))]
+    if len(loops) != 1 or hot[0] != loops[0]:
+        return None
+    i = loops[0]
+    loop = body[i]
+    if loop.orelse:
+        return None
+
+    def level(stmts):
+        # statements of the loop's own level (through ifs)
+        for st in stmts:
+            yield st
+            if isinstance(st, ast.If):
+                yield from level(st.body)
+                yield from level(st.orelse)
+    own = list(level(loop.body))
+    if any(isinstance(st, ast.Break) for st in own):
+        return None
+    for st in own:
+        if not isinstance(st, (ast.If, ast.Return)) and _contains_return(st):
+            return None
+    post = _tailify(copy.deepcopy(body[i + 1:]))
+    if post is None or not _returns_all_tail(post):
+        return None
+    post = _close_paths(post)
+
+    def assign(value, at):
+        return ast.copy_location(ast.Assign(targets=[ast.Name(id=rname, ctx=ast.Store())], value=value or ast.Constant(value=None)), at)
+
+    def in_loop(stmts):
+        out = []
+        for st in stmts:
+            if isinstance(st, ast.Return):
+                out += [assign(st.value, st), ast.copy_location(ast.Break(), st)]
+            elif isinstance(st, ast.If):
+                st = copy.copy(st)
+                st.body = in_loop(st.body)
+                st.orelse = in_loop(st.orelse)
+                out.append(st)
+            else:
+                out.append(st)
+        return out
+
+    def in_post(stmts):
+        out = []
+        for st in stmts:
+            if isinstance(st, ast.Return):
+                out.append(assign(st.value, st))
+            elif isinstance(st, (ast.If, ast.With, ast.Try)) and _contains_return(st):
+                st = copy.copy(st)
+                st.body = in_post(st.body)
+                if isinstance(st, ast.If):
+                    st.orelse = in_post(st.orelse)
+                if isinstance(st, ast.Try):
+                    hs = []
+                    for h in st.handlers:
+                        h = copy.copy(h)
+                        h.body = in_post(h.body)
+                        hs.append(h)
+                    st.handlers = hs
+                out.append(st)
+            else:
+                out.append(st)
+        return out
+    new_loop = copy.copy(loop)
+    new_loop.body = in_loop(copy.deepcopy(loop.body))
+    new_loop.orelse = in_post(post)
+    ret = ast.copy_location(ast.Return(value=ast.Name(id=rname, ctx=ast.Load())), body[-1])
+    out = list(body[:i]) + [new_loop, ret]
+    for st in out:
+        ast.fix_missing_locations(st)
+    return out
+
+
 class _Helper:
     def __init__(self, modname, qual, node, cls_name):
         self.modname = modname
@@ -271,7 +421,17 @@ class _Helper:
             raw = raw + [ast.Return(value=ast.Constant(value=None))]
         self.raw_body = raw
         self.tail_ok = True
-        body = _tailify(copy.deepcopy(body))
+        self.extra_stored = set()
+        body = _final_loop_returns_to_breaks(copy.deepcopy(body))
+        tailed = _tailify(copy.deepcopy(body))
+        if (tailed is None or not _returns_all_tail(tailed)) and not self.is_gen:
+            # a search loop that returns its hit: brought to single-exit form
+            rname = '_found'
+            alt = _search_loop_form(copy.deepcopy(body), rname)
+            if alt is not None:
+                tailed = _tailify(alt)
+                self.extra_stored.add(rname)
+        body = tailed
         if body is None or not _returns_all_tail(body):
             self.tail_ok = False
             self.body = None
@@ -300,7 +460,7 @@ class _Helper:
             stored.add(d.name)
         if inner_params & (stored | set(self.params)):
             return False
-        self.stored = stored
+        self.stored = stored | self.extra_stored
         return True
 
 
@@ -347,6 +507,10 @@ class Inliner:
         self.helpers = {}               # (modname, cls or None, name) -> _Helper
         self.records = {}               # id(function node) -> {local name: (modname, class name)}: locals holding an instance of a new record class
         self._cur_vars = {}
+        self._cur_fn = None
+        self._special = {}
+        self._made_prefixes = set()
+        self.ext_helpers = {}           # reference functions that gained optional parameters
         self._rec_funcs = {}            # id(function node) -> function node
 
     # ---------------------------------------------------------------- discovery
@@ -359,6 +523,8 @@ class Inliner:
                     relocated = any(p_.startswith(mname + ':') and p_.endswith('.' + st.name) for p_ in self.pinned)
                     if fq not in self.pinned and not relocated:
                         self.helpers[(mname, None, st.name)] = _Helper(mname, st.name, st, None)
+                    elif fq in self.pinned:
+                        self._note_extended(mname, None, st, fq)
                 elif isinstance(st, ast.ClassDef):
                     for s2 in st.body:
                         if isinstance(s2, ast.FunctionDef):
@@ -366,10 +532,123 @@ class Inliner:
                             if fq not in self.pinned and not (s2.name.startswith('__') and s2.name.endswith('__')):
                                 # a new method of a class that is itself new is not an extracted helper
                                 self.helpers[(mname, st.name, s2.name)] = _Helper(mname, f'{st.name}.{s2.name}', s2, st.name)
+                            elif fq in self.pinned:
+                                self._note_extended(mname, st.name, s2, fq)
         return {k: h for k, h in self.helpers.items() if h.ok}
+
+    def _note_extended(self, mname, cls_name, node, fq):
+        """a function of the reference layout that gained optional parameters: a call that passes one of them cannot be a call of the
+        reference layout - it is the reuse of the function's body by a new caller, and is inlined there like a new helper (the function
+        itself stays, read with the new parameters at their defaults)"""
+        _load_pinned()
+        ref = set(_PINNED_META.get(fq, ([], 0, []))[0])
+        a = node.args
+        if a.vararg or a.kwarg or not ref:
+            return
+        cur = [x.arg for x in a.posonlyargs + a.args + a.kwonlyargs]
+        new = [p for p in cur if p not in ref]
+        if not new or not ref <= set(cur):
+            return
+        h = _Helper(mname, f'{cls_name}.{node.name}' if cls_name else node.name, node, cls_name)
+        if not h.ok or any(p not in h.defaults for p in new):
+            return
+        h.new_params = new
+        self.ext_helpers[(mname, cls_name, node.name)] = h
+
+    def _specialise_extended(self):
+        """the reference functions that gained optional parameters, read with those parameters at their (constant) defaults - unless a
+        remaining reference passes one of them"""
+        changed = False
+        for (mname, cls_name, name), h in self.ext_helpers.items():
+            passed = False
+            for m in self.modules.values():
+                for c in ast.walk(m.tree):
+                    if isinstance(c, ast.Call) and any(kw.arg in h.new_params for kw in c.keywords) and \
+                            any((isinstance(x, ast.Name) and x.id == name) or (isinstance(x, ast.Attribute) and x.attr == name) for x in ast.walk(c)):
+                        passed = True
+            if passed:
+                continue
+            states = {}
+            for p in h.new_params:
+                d = h.defaults.get(p)
+                if isinstance(d, ast.Constant) and p not in h.stored:
+                    states[p] = 'none' if d.value is None else 'notnone'
+            fn2 = _fold_param_tests(h.node, states) if states else None
+            if fn2 is not None:
+                h.node.body = fn2.body
+                self.log.append(f'{mname}:{h.qual}: read with the new optional parameter(s) {sorted(states)} at their defaults')
+                changed = True
+        return changed
 
     # ---------------------------------------------------------------- resolution
     def _resolve(self, mname, cls_name, call):
+        h, recv = self._resolve0(mname, cls_name, call)
+        if h is not None and h.ok:
+            h = self._specialise(h, call)
+        return h, recv
+
+    def _specialise(self, h, call):
+        """the helper with its tests on optional parameters decided for this call: a parameter (never rebound in the helper) that gets
+        the constant None here, or an object the caller built by a constructor call"""
+        states = {}
+        pos = h.params[:h.npos]
+        if h.kind in ('method', 'classmethod'):
+            pos = pos[1:]
+        given = dict(zip(pos, call.args))
+        for kw in call.keywords:
+            if kw.arg:
+                given[kw.arg] = kw.value
+        if any(isinstance(a, ast.Starred) for a in call.args) or any(kw.arg is None for kw in call.keywords):
+            return h
+        for p in h.params:
+            if p in h.stored:
+                continue
+            a = given.get(p, h.defaults.get(p))
+            if a is None:
+                continue
+            if isinstance(a, ast.Constant):
+                if a.value is None:
+                    states[p] = 'none'
+                else:
+                    states[p] = 'notnone'
+            elif isinstance(a, ast.Name) and self._cur_fn is not None:
+                stores = [n for n in ast.walk(self._cur_fn) if isinstance(n, ast.Name) and n.id == a.id and isinstance(n.ctx, (ast.Store, ast.Del))]
+                args = [x for x in ast.walk(self._cur_fn.args) if isinstance(x, ast.arg) and x.arg == a.id]
+                if len(stores) == 1 and not args:
+                    asg = [n for n in ast.walk(self._cur_fn) if isinstance(n, ast.Assign) and len(n.targets) == 1 and n.targets[0] is stores[0]]
+                    if asg and isinstance(asg[0].value, ast.Call) and isinstance(asg[0].value.func, (ast.Name, ast.Attribute)):
+                        fnm = asg[0].value.func.id if isinstance(asg[0].value.func, ast.Name) else asg[0].value.func.attr
+                        if fnm[:1].isupper():
+                            states[p] = 'notnone'
+        if not states:
+            return h
+        key = (id(h), tuple(sorted(states.items())))
+        if key not in self._special:
+            fn2 = _fold_param_tests(h.node, states)
+            if fn2 is None:
+                self._special[key] = h
+            else:
+                h2 = _Helper(h.modname, h.qual, fn2, h.cls_name)
+                h2.node_orig = h.node
+                self._special[key] = h2 if h2.ok else h
+        return self._special[key]
+
+    def _resolve0(self, mname, cls_name, call):
+        h, recv = self._resolve1(mname, cls_name, call)
+        if h is None and self.ext_helpers:
+            f = call.func
+            key = None
+            if isinstance(f, ast.Name):
+                key, recv = (mname, None, f.id), None
+            elif isinstance(f, ast.Attribute) and isinstance(f.value, ast.Name) and f.value.id in ('self', 'cls') and cls_name:
+                key, recv = (mname, cls_name, f.attr), f.value
+            x = self.ext_helpers.get(key) if key else None
+            if x is not None and any(kw.arg in x.new_params for kw in call.keywords) and \
+                    not (self._cur_fn is not None and self._cur_fn is x.node):
+                return x, recv
+        return h, recv
+
+    def _resolve1(self, mname, cls_name, call):
         f = call.func
         if isinstance(f, ast.Name):
             h = self.helpers.get((mname, None, f.id))
@@ -392,7 +671,33 @@ class Inliner:
                 h = self.helpers.get((mname, recv, f.attr))
                 if h is not None and h.ok and h.kind in ('staticmethod', 'classmethod'):
                     return h, f.value
+                if h is None and not recv[:1].isupper():
+                    # a local object: the method is resolved by name when exactly one class of the package defines a method of
+                    # that name and no builtin container / text / file type has one
+                    cands = [v for (mn, cn, n), v in self.helpers.items() if cn and n == f.attr]
+                    if len(cands) == 1 and cands[0].ok and cands[0].kind == 'method' and self._unique_method_name(f.attr):
+                        return cands[0], f.value
         return None, None
+
+    def _unique_method_name(self, name):
+        if getattr(self, '_method_names', None) is None:
+            import io
+            names = {}
+            for m in self.modules.values():
+                for st in ast.walk(m.tree):
+                    if isinstance(st, ast.ClassDef):
+                        for s2 in st.body:
+                            if isinstance(s2, (ast.FunctionDef, ast.AsyncFunctionDef)):
+                                names[s2.name] = names.get(s2.name, 0) + 1
+                            elif isinstance(s2, ast.Assign):
+                                for t in s2.targets:
+                                    if isinstance(t, ast.Name):
+                                        names[t.id] = names.get(t.id, 0) + 1
+            self._method_names = names
+            self._foreign_names = set()
+            for t in (dict, list, str, bytes, bytearray, set, tuple, int, io.BytesIO, io.StringIO, io.BufferedReader, Exception):
+                self._foreign_names |= set(dir(t))
+        return self._method_names.get(name) == 1 and name not in self._foreign_names
 
     # ---------------------------------------------------------------- expansion
     def _expand(self, h, call, recv, mode, targets=None):
@@ -640,6 +945,16 @@ class Inliner:
             if h is not None and h.is_gen:
                 return self._expand(h, st.value.value, recv, 'gen')
             return None
+        if isinstance(st, ast.Return) and isinstance(st.value, ast.Call) and self._cur_fn is not None:
+            # `return gen_helper(..)` as the only exit of a plain function: the function is that generator (`yield from gen_helper(..)`)
+            h, recv = self._resolve(mname, cls_name, st.value)
+            if h is not None and h.is_gen:
+                fn = self._cur_fn
+                rets = [n for b in fn.body for n in _walk_no_defs(b) if isinstance(n, ast.Return)]
+                ys = [n for b in fn.body for n in _walk_no_defs(b) if isinstance(n, (ast.Yield, ast.YieldFrom))]
+                if rets == [st] and not ys and fn.body and fn.body[-1] is st:
+                    return self._expand(h, st.value, recv, 'gen')
+                return None
         if isinstance(st, ast.Expr) and isinstance(st.value, ast.Call):
             h, recv = self._resolve(mname, cls_name, st.value)
             if h is not None and not h.is_gen:
@@ -717,6 +1032,40 @@ class Inliner:
                         for s_ in out_:
                             ast.fix_missing_locations(s_)
                         return out_
+        # `x = next(gen_helper(..), DEFAULT)`: the helper's loop, leaving with `x = <yielded value>` at the first yield, else `x = DEFAULT`
+        if isinstance(st, ast.Assign) and len(st.targets) == 1 and isinstance(st.targets[0], ast.Name) and isinstance(st.value, ast.Call) \
+                and isinstance(st.value.func, ast.Name) and st.value.func.id == 'next' and len(st.value.args) == 2 and not st.value.keywords \
+                and isinstance(st.value.args[0], ast.Call) and _simple_arg(st.value.args[1]):
+            h, recv = self._resolve(mname, cls_name, st.value.args[0])
+            if h is not None and h.is_gen and h.tail_ok:
+                exp = self._expand(h, st.value.args[0], recv, 'gen')
+                tname = st.targets[0].id
+                if exp is not None and isinstance(exp[-1], (ast.For, ast.While)) and not exp[-1].orelse and \
+                        not any(isinstance(n, (ast.Yield, ast.YieldFrom)) for s_ in exp[:-1] for n in ast.walk(s_)):
+                    loop = exp[-1]
+                    ok = [True]
+
+                    def first_hit(stmts):
+                        out = []
+                        for s_ in stmts:
+                            if isinstance(s_, ast.Expr) and isinstance(s_.value, ast.Yield):
+                                v = s_.value.value if s_.value.value is not None else ast.Constant(value=None)
+                                out.append(ast.copy_location(ast.Assign(targets=[ast.Name(id=tname, ctx=ast.Store())], value=v), s_))
+                                out.append(ast.copy_location(ast.Break(), s_))
+                                break          # what follows the yield is never resumed
+                            if isinstance(s_, ast.If):
+                                s_.body = first_hit(s_.body)
+                                s_.orelse = first_hit(s_.orelse)
+                            elif isinstance(s_, ast.Break) or any(isinstance(n, (ast.Yield, ast.YieldFrom)) for n in ast.walk(s_)):
+                                ok[0] = False
+                            out.append(s_)
+                        return out
+                    loop.body = first_hit(loop.body)
+                    if ok[0]:
+                        loop.orelse = [ast.copy_location(ast.Assign(targets=[ast.Name(id=tname, ctx=ast.Store())], value=st.value.args[1]), st)]
+                        for s_ in exp:
+                            ast.fix_missing_locations(s_)
+                        return exp
         # `x = yield from gen_helper(..)`: the helper's yields stay in place, its return value is bound to x
         if isinstance(st, ast.Assign) and isinstance(st.value, ast.YieldFrom) and isinstance(st.value.value, ast.Call):
             h, recv = self._resolve(mname, cls_name, st.value.value)
@@ -752,6 +1101,46 @@ class Inliner:
                         has_cont = any(isinstance(j, ast.Continue) for j in jumps)
                         has_brk = any(isinstance(j, ast.Break) for j in jumps)
                         body_ok = (not has_cont or y_last) and (not has_brk or loop_last)
+                if len(ys) > 1 and all(isinstance(y, ast.Yield) and y.value is not None for y in ys):
+                    # several yields, each the last thing its path through the helper's loop does: the consumer's body follows the branching once
+                    def tail_leaves(stmts):
+                        if not stmts:
+                            return None
+                        last = stmts[-1]
+                        if isinstance(last, ast.Expr) and isinstance(last.value, ast.Yield):
+                            return [(stmts, last)]
+                        if isinstance(last, ast.If) and last.orelse:
+                            a_, b_ = tail_leaves(last.body), tail_leaves(last.orelse)
+                            return None if a_ is None or b_ is None else a_ + b_
+                        return None
+                    exp = self._expand(h, st.iter, recv, 'gen')
+                    has_brk = any(isinstance(j, ast.Break) for j in jumps)
+                    if exp is not None:
+                        loops_ = [x for s_ in exp for x in ast.walk(s_) if isinstance(x, LOOPS)]
+                        all_y = [x for s_ in exp for x in ast.walk(s_) if isinstance(x, (ast.Yield, ast.YieldFrom))]
+                        for lp_ in loops_:
+                            lv = tail_leaves(lp_.body)
+                            if lv is None or len(lv) != len(all_y) or {id(l.value) for (_b, l) in lv} != {id(y) for y in all_y}:
+                                continue
+                            if has_brk and not (exp[-1] is lp_ and not lp_.orelse):
+                                continue
+                            for (blk, leaf) in lv:
+                                tgt = copy.deepcopy(st.target)
+                                for x in ast.walk(tgt):
+                                    if isinstance(x, ast.Name):
+                                        x.ctx = ast.Store()
+                                v = leaf.value.value
+                                if isinstance(tgt, ast.Tuple) and isinstance(v, ast.Tuple) and len(tgt.elts) == len(v.elts) and \
+                                        all(isinstance(e, ast.Name) for e in tgt.elts) and \
+                                        not ({e.id for e in tgt.elts} & {x.id for x in ast.walk(v) if isinstance(x, ast.Name)}):
+                                    new_ = [ast.copy_location(ast.Assign(targets=[t_], value=v_), leaf) for t_, v_ in zip(tgt.elts, v.elts)]
+                                else:
+                                    new_ = [ast.copy_location(ast.Assign(targets=[tgt], value=v), leaf)]
+                                blk[-1:] = new_
+                            lp_.body.extend(st.body)
+                            for s_ in exp:
+                                ast.fix_missing_locations(s_)
+                            return exp
                 if len(ys) == 1 and isinstance(ys[0], ast.Yield) and ys[0].value is not None and body_ok:
                     exp = self._expand(h, st.iter, recv, 'gen')
                     if exp is not None:
@@ -893,11 +1282,200 @@ class Inliner:
                 self.log.append(f'{mname}: constructor calls of the NamedTuple class(es) {sorted(nts)} read as tuples')
         return changed
 
+    def _unroll_table_loops(self):
+        """A scan of a small literal table that stops at the first hit
+
+            for a, b in TABLE:            if COND[a1, b1]: BODY[a1, b1]
+                if COND: BODY; break  ->  elif COND[a2, b2]: BODY[a2, b2]
+            else: ORELSE                  else: ORELSE
+
+        is the if/elif chain it abbreviates.  TABLE is bound once - at module level, or in the function itself and used by this loop only -
+        to a tuple/list of names, constants, argument-less lambdas, or tuples of those; the loop variables are used nowhere else in the
+        function; BODY ends with break, return or raise.  `(lambda: X)()` left by the substitution is X."""
+        changed = False
+
+        def atom(e, local=False):
+            if isinstance(e, (ast.Name, ast.Constant)) or (isinstance(e, ast.Attribute) and _simple_arg(e)):
+                return True
+            return local and isinstance(e, ast.Lambda) and not (e.args.args or e.args.posonlyargs or e.args.kwonlyargs or e.args.vararg or e.args.kwarg)
+
+        def table_value(v, local=False):
+            if isinstance(v, (ast.Tuple, ast.List)) and 0 < len(v.elts) <= 8:
+                if all(atom(e, local) for e in v.elts):
+                    return True
+                return all(isinstance(e, ast.Tuple) and e.elts and all(atom(x, local) for x in e.elts) for e in v.elts) and len({len(e.elts) for e in v.elts}) == 1
+            return False
+
+        class Beta(ast.NodeTransformer):
+            def visit_Call(self_, n):
+                self_.generic_visit(n)
+                if isinstance(n.func, ast.Lambda) and not n.args and not n.keywords:
+                    return n.func.body
+                return n
+        for mname, m in self.modules.items():
+            tables, stores = {}, {}
+            for n in ast.walk(m.tree):
+                if isinstance(n, ast.Name) and isinstance(n.ctx, (ast.Store, ast.Del)):
+                    stores[n.id] = stores.get(n.id, 0) + 1
+                elif isinstance(n, ast.arg):
+                    stores[n.arg] = stores.get(n.arg, 0) + 1
+            for st in m.tree.body:
+                if isinstance(st, ast.Assign) and len(st.targets) == 1 and isinstance(st.targets[0], ast.Name):
+                    if table_value(st.value) and stores.get(st.targets[0].id) == 1:
+                        tables[st.targets[0].id] = st.value
+            for fn in [n for n in ast.walk(m.tree) if isinstance(n, ast.FunctionDef)]:
+                # tables of the function itself: bound once by a top-level statement of the function, read once (by the loop)
+                local = {}
+                fstores, floads = {}, {}
+                for n in ast.walk(fn):
+                    if isinstance(n, ast.Name):
+                        d_ = fstores if isinstance(n.ctx, (ast.Store, ast.Del)) else floads
+                        d_[n.id] = d_.get(n.id, 0) + 1
+                    elif isinstance(n, ast.arg):
+                        fstores[n.arg] = fstores.get(n.arg, 0) + 2
+                for st in fn.body:
+                    if isinstance(st, ast.Assign) and len(st.targets) == 1 and isinstance(st.targets[0], ast.Name) and table_value(st.value, True) \
+                            and fstores.get(st.targets[0].id) == 1 and floads.get(st.targets[0].id) == 1:
+                        local[st.targets[0].id] = st
+                for holder in ast.walk(fn):
+                    for field in ('body', 'orelse', 'finalbody'):
+                        body = getattr(holder, field, None)
+                        if not isinstance(body, list):
+                            continue
+                        for i, st in enumerate(body):
+                            if not (isinstance(st, ast.For) and isinstance(st.iter, ast.Name)):
+                                continue
+                            if st.iter.id in local:
+                                tab = local[st.iter.id].value
+                            elif st.iter.id in tables and st.iter.id not in fstores:
+                                tab = tables[st.iter.id]
+                            else:
+                                continue
+                            if isinstance(st.target, ast.Name):
+                                tnames = [st.target.id]
+                                rows = [[e] for e in tab.elts]
+                                if any(isinstance(e, ast.Tuple) for e in tab.elts):
+                                    continue
+                            elif isinstance(st.target, ast.Tuple) and all(isinstance(e, ast.Name) for e in st.target.elts):
+                                tnames = [e.id for e in st.target.elts]
+                                if not all(isinstance(e, ast.Tuple) and len(e.elts) == len(tnames) for e in tab.elts):
+                                    continue
+                                rows = [list(e.elts) for e in tab.elts]
+                            else:
+                                continue
+                            if not (len(st.body) == 1 and isinstance(st.body[0], ast.If) and not st.body[0].orelse
+                                    and isinstance(st.body[0].body[-1], (ast.Break, ast.Return, ast.Raise))):
+                                continue
+                            inner = st.body[0]
+                            if any(isinstance(x, (ast.Break, ast.Continue, ast.FunctionDef, ast.Lambda))
+                                   for b in inner.body[:-1] for x in ast.walk(b)):
+                                continue
+                            inside = {id(x) for x in ast.walk(st)}
+                            if any(isinstance(x, ast.Name) and x.id in tnames and id(x) not in inside for x in ast.walk(fn)):
+                                continue
+                            if any(isinstance(x, ast.Name) and x.id in tnames and isinstance(x.ctx, ast.Store)
+                                   for b in st.body for x in ast.walk(b)):
+                                continue
+                            keep_last = not isinstance(inner.body[-1], ast.Break)
+                            chain = list(st.orelse)
+                            for row in reversed(rows):
+                                sub = _Subst({}, dict(zip(tnames, row)))
+                                test = Beta().visit(sub.visit(copy.deepcopy(inner.test)))
+                                src_ = inner.body if keep_last else inner.body[:-1]
+                                blk = [Beta().visit(sub.visit(copy.deepcopy(b))) for b in src_] or [ast.copy_location(ast.Pass(), inner)]
+                                chain = [ast.copy_location(ast.If(test=test, body=blk, orelse=chain), st)]
+                            for c_ in chain:
+                                ast.fix_missing_locations(c_)
+                            body[i:i + 1] = chain
+                            if st.iter.id in local and local[st.iter.id] in fn.body:
+                                fn.body.remove(local[st.iter.id])
+                            self.log.append(f'{mname}:{fn.name}: scan of the table `{st.iter.id}` unrolled into an if/elif chain')
+                            changed = True
+        return changed
+
+    def _lower_dict_dispatch(self):
+        """`f = TABLE[K]; <statement calling f(..)>` with TABLE a module-level literal dict (bound once) of constant keys -> the chain
+        `if K == k1: <statement with the value of k1 for f> elif .. else: raise KeyError(K)`.  For keys that are tuples of booleans and
+        K = (bool(a), bool(b), ..) the tests are written over a, b themselves; an exhaustive table needs no KeyError branch."""
+        changed = False
+        for mname, m in self.modules.items():
+            stores = {}
+            for n in ast.walk(m.tree):
+                if isinstance(n, ast.Name) and isinstance(n.ctx, (ast.Store, ast.Del)):
+                    stores[n.id] = stores.get(n.id, 0) + 1
+            tables = {}
+            for st in m.tree.body:
+                if isinstance(st, ast.Assign) and len(st.targets) == 1 and isinstance(st.targets[0], ast.Name) and isinstance(st.value, ast.Dict) \
+                        and stores.get(st.targets[0].id) == 1 and 0 < len(st.value.keys) <= 16:
+                    def ckey(k):
+                        return isinstance(k, ast.Constant) or (isinstance(k, ast.Tuple) and all(isinstance(e, ast.Constant) for e in k.elts))
+                    if all(k is not None and ckey(k) for k in st.value.keys) and all(isinstance(v, (ast.Name, ast.Attribute, ast.Constant)) for v in st.value.values):
+                        tables[st.targets[0].id] = st.value
+            if not tables:
+                continue
+            for fn in [n for n in ast.walk(m.tree) if isinstance(n, ast.FunctionDef)]:
+                fstores, floads = {}, {}
+                for n in ast.walk(fn):
+                    if isinstance(n, ast.Name):
+                        d_ = fstores if isinstance(n.ctx, (ast.Store, ast.Del)) else floads
+                        d_[n.id] = d_.get(n.id, 0) + 1
+                for holder in ast.walk(fn):
+                    for field in ('body', 'orelse', 'finalbody'):
+                        body = getattr(holder, field, None)
+                        if not isinstance(body, list):
+                            continue
+                        for i, st in enumerate(body[:-1]):
+                            if not (isinstance(st, ast.Assign) and len(st.targets) == 1 and isinstance(st.targets[0], ast.Name) and isinstance(st.value, ast.Subscript)
+                                    and isinstance(st.value.value, ast.Name) and st.value.value.id in tables and st.value.value.id not in fstores):
+                                continue
+                            f_ = st.targets[0].id
+                            nxt = body[i + 1]
+                            uses = [n for n in ast.walk(nxt) if isinstance(n, ast.Name) and n.id == f_ and isinstance(n.ctx, ast.Load)]
+                            if fstores.get(f_) != 1 or floads.get(f_) != 1 or len(uses) != 1 or not isinstance(nxt, (ast.Assign, ast.Expr, ast.Return)):
+                                continue
+                            if not any(isinstance(c, ast.Call) and c.func is uses[0] for c in ast.walk(nxt)):
+                                continue
+                            tab, K = tables[st.value.value.id], st.value.slice
+                            keys = [tuple(e.value for e in k.elts) if isinstance(k, ast.Tuple) else k.value for k in tab.keys]
+                            bool_form = isinstance(K, ast.Tuple) and all(isinstance(e, ast.Call) and isinstance(e.func, ast.Name) and e.func.id == 'bool'
+                                                                         and len(e.args) == 1 and isinstance(e.args[0], ast.Name) for e in K.elts) \
+                                and all(isinstance(k, tuple) and len(k) == len(K.elts) and all(type(x) is bool for x in k) for k in keys)
+                            if not bool_form and not all(isinstance(n, (ast.Name, ast.Constant, ast.Tuple, ast.Attribute, ast.Load)) for n in ast.walk(K)):
+                                continue
+                            exhaustive = bool_form and len(set(keys)) == 2 ** len(K.elts)
+                            chain = [] if exhaustive else [ast.Raise(exc=ast.Call(func=ast.Name(id='KeyError', ctx=ast.Load()), args=[copy.deepcopy(K)], keywords=[]), cause=None)]
+                            rows = list(zip(keys, tab.keys, tab.values))
+                            for idx, (kv, knode, vnode) in reversed(list(enumerate(rows))):
+                                if bool_form:
+                                    atoms = [copy.deepcopy(e.args[0]) if b else ast.UnaryOp(op=ast.Not(), operand=copy.deepcopy(e.args[0])) for e, b in zip(K.elts, kv)]
+                                    test = atoms[0] if len(atoms) == 1 else ast.BoolOp(op=ast.And(), values=atoms)
+                                else:
+                                    test = ast.Compare(left=copy.deepcopy(K), ops=[ast.Eq()], comparators=[copy.deepcopy(knode)])
+                                stmt = copy.deepcopy(nxt)
+                                u2 = [n for n in ast.walk(stmt) if isinstance(n, ast.Name) and n.id == f_ and isinstance(n.ctx, ast.Load)][0]
+                                _replace_node(stmt, u2, copy.deepcopy(vnode))
+                                if exhaustive and idx == len(rows) - 1:
+                                    chain = [stmt]
+                                else:
+                                    chain = [ast.If(test=test, body=[stmt], orelse=chain)]
+                            for c_ in chain:
+                                ast.copy_location(c_, st)
+                                ast.fix_missing_locations(c_)
+                            body[i:i + 2] = chain
+                            self.log.append(f'{mname}:{fn.name}: dispatch through the table `{st.value.value.id}` written out as an if/elif chain')
+                            changed = True
+                            break
+        return changed
+
     def run(self):
         nt_changed = self._namedtuple_calls_to_tuples()
+        if self._unroll_table_loops():
+            nt_changed = True
+        if self._lower_dict_dispatch():
+            nt_changed = True
         cands = self.discover()
         self._find_records()
-        if not cands and not self.records:
+        if not cands and not self.records and not self.ext_helpers:
             if nt_changed:
                 for m in self.modules.values():
                     ast.fix_missing_locations(m.tree)
@@ -910,24 +1488,31 @@ class Inliner:
                 for st in m.tree.body:
                     if isinstance(st, ast.FunctionDef):
                         self._cur_vars = self.records.get(id(st), {})
+                        self._cur_fn = st
                         if self._process_body(st.body, mname, None):
                             changed = True
                     elif isinstance(st, ast.ClassDef):
                         for s2 in st.body:
                             if isinstance(s2, ast.FunctionDef):
                                 self._cur_vars = self.records.get(id(s2), {})
+                                self._cur_fn = s2
                                 if self._process_body(s2.body, mname, st.name):
                                     changed = True
             self._cur_vars = {}
+            self._cur_fn = None
             if not changed:
                 break
             any_change = True
             # helpers may have had inner helper calls expanded: refresh their prepared bodies
             for k, h in list(self.helpers.items()):
                 self.helpers[k] = _Helper(h.modname, h.qual, h.node, h.cls_name)
+            self._special = {}
+        if self._specialise_extended():
+            any_change = True
         any_change = any_change or nt_changed
         if any_change:
             self._scalarise_records()
+            self._propagate_made_aliases()
             self._drop_fully_inlined()
             for m in self.modules.values():
                 ast.fix_missing_locations(m.tree)
@@ -1081,12 +1666,61 @@ class Inliner:
         ast.fix_missing_locations(init)
         return (st, set(names), init, props)
 
+    def _hoist_temp_records(self, classes):
+        """`K(a).method(b)` - a record object built for one call: `_recN = K(a)` in front of the statement, `_recN.method(b)` in place"""
+        def uncond(e, out):
+            if isinstance(e, (ast.Lambda, ast.ListComp, ast.SetComp, ast.DictComp, ast.GeneratorExp)):
+                return
+            if isinstance(e, ast.BoolOp):
+                uncond(e.values[0], out)
+                return
+            if isinstance(e, ast.IfExp):
+                uncond(e.test, out)
+                return
+            out.append(e)
+            for c in ast.iter_child_nodes(e):
+                if isinstance(c, ast.expr):
+                    uncond(c, out)
+        for mname, m in self.modules.items():
+            for fn in [n for n in ast.walk(m.tree) if isinstance(n, ast.FunctionDef)]:
+                for holder in ast.walk(fn):
+                    for field in ('body', 'orelse', 'finalbody'):
+                        body = getattr(holder, field, None)
+                        if not isinstance(body, list):
+                            continue
+                        i = 0
+                        while i < len(body):
+                            st = body[i]
+                            heads = []
+                            if isinstance(st, (ast.Assign, ast.AugAssign, ast.AnnAssign, ast.Expr, ast.Return)) and getattr(st, 'value', None) is not None:
+                                heads.append(st.value)
+                            elif isinstance(st, ast.If):
+                                heads.append(st.test)
+                            pre = []
+                            for hexpr in heads:
+                                nodes = []
+                                uncond(hexpr, nodes)
+                                for e in nodes:
+                                    if isinstance(e, ast.Call) and isinstance(e.func, ast.Attribute) and isinstance(e.func.value, ast.Call) \
+                                            and isinstance(e.func.value.func, ast.Name) and (mname, e.func.value.func.id) in classes:
+                                        self.counter += 1
+                                        tmp = f'_rec{self.counter}'
+                                        asg = ast.Assign(targets=[ast.Name(id=tmp, ctx=ast.Store())], value=e.func.value)
+                                        pre.append(ast.copy_location(asg, st))
+                                        e.func.value = ast.copy_location(ast.Name(id=tmp, ctx=ast.Load()), e.func.value)
+                                        self._made_prefixes.add(tmp + '__')
+                            for a_ in pre:
+                                ast.fix_missing_locations(a_)
+                            body[i:i] = pre
+                            i += len(pre) + 1
+
     def _find_records(self):
         classes = self._new_record_classes()
         if not classes:
             return
         for (mname, kname), (cnode, fields, init, props) in classes.items():
             self.helpers[(mname, kname, '__init__')] = _Helper(mname, f'{kname}.__init__', init, kname)
+        self._hoist_temp_records(classes)
         self._record_fields = {k: list(self._namedtuple_fields(v[0]) or []) for k, v in classes.items()}
         for mname, m in self.modules.items():
             fns = []
@@ -1180,7 +1814,114 @@ class Inliner:
                             return ast.copy_location(ast.Name(id=f'{v}__{a.attr}', ctx=a.ctx), a)
                         return a
                 Tr().visit(fn)
+                self._made_prefixes.add(v + '__')
                 self.log.append(f'{mname}:{fn.name}: record local `{v}` ({kname}) replaced by its fields')
+
+    def _propagate_made_aliases(self):
+        """`p__i3 = q` where p__i3 is a name this pass made (a bound parameter of an expanded helper, a field of a dissolved record), bound
+        exactly once, and q is a name of the function that is bound at most once: p__i3 *is* q; the copy is removed."""
+        import re
+        made = re.compile(r'.*__i\d+$')
+
+        def is_made(name):
+            return bool(made.match(name)) or any(name.startswith(p) for p in self._made_prefixes)
+
+        def pure(e):
+            for n in ast.walk(e):
+                if isinstance(n, ast.Call):
+                    if not (isinstance(n.func, ast.Name) and n.func.id in ('len', 'min', 'max', 'abs', 'bool', 'int', 'str', 'isinstance') and not n.keywords):
+                        return False
+                elif not isinstance(n, (ast.Name, ast.Constant, ast.Attribute, ast.BinOp, ast.UnaryOp, ast.Compare, ast.BoolOp, ast.Subscript, ast.Tuple,
+                                        ast.operator, ast.unaryop, ast.cmpop, ast.boolop, ast.expr_context)):
+                    return False
+            return True
+        for m in self.modules.values():
+            for fn in [n for n in ast.walk(m.tree) if isinstance(n, ast.FunctionDef)]:
+                for _ in range(6):
+                    stores = {}
+                    for n in (x for b in fn.body for x in ast.walk(b)):
+                        if isinstance(n, ast.Name) and isinstance(n.ctx, (ast.Store, ast.Del)):
+                            stores[n.id] = stores.get(n.id, 0) + 1
+                        elif isinstance(n, ast.ExceptHandler) and n.name:
+                            stores[n.name] = stores.get(n.name, 0) + 2
+                        elif isinstance(n, (ast.Global, ast.Nonlocal)):
+                            for nm in n.names:
+                                stores[nm] = stores.get(nm, 0) + 2
+                    # closures may read a name later: what they mention is left alone
+                    for d_ in [n for n in ast.walk(fn) if isinstance(n, DEFS + (ast.Lambda,)) and n is not fn]:
+                        for n in ast.walk(d_):
+                            if isinstance(n, ast.Name):
+                                stores[n.id] = stores.get(n.id, 0) + 5
+                            elif isinstance(n, ast.arg):
+                                stores[n.arg] = stores.get(n.arg, 0) + 5
+                    params = {a.arg for a in ast.walk(fn.args) if isinstance(a, ast.arg)}
+                    done = False
+                    for holder in ast.walk(fn):
+                        for field in ('body', 'orelse', 'finalbody'):
+                            body = getattr(holder, field, None)
+                            if not isinstance(body, list):
+                                continue
+                            for i, st in enumerate(body):
+                                if isinstance(st, ast.Assign) and len(st.targets) == 1 and isinstance(st.targets[0], ast.Tuple) and \
+                                        isinstance(st.value, ast.Tuple) and len(st.value.elts) == len(st.targets[0].elts) and \
+                                        all(isinstance(e, ast.Name) for e in st.targets[0].elts + st.value.elts) and \
+                                        any(is_made(e.id) for e in st.targets[0].elts + st.value.elts) and \
+                                        not ({e.id for e in st.targets[0].elts} & {e.id for e in st.value.elts}):
+                                    # `a, b = (p__i1, q__i1)`: two plain copies
+                                    body[i:i + 1] = [ast.copy_location(ast.Assign(targets=[t_], value=v_), st) for t_, v_ in zip(st.targets[0].elts, st.value.elts)]
+                                    done = True
+                                    break
+                                if isinstance(st, ast.Assign) and len(st.targets) == 1 and isinstance(st.targets[0], ast.Name) and is_made(st.targets[0].id) \
+                                        and not isinstance(st.value, ast.Name) and pure(st.value) and i + 1 < len(body) and stores.get(st.targets[0].id) == 1:
+                                    # `n__i2 = len(part)` read once, by the statement that follows: the expression in place of the name
+                                    t = st.targets[0].id
+                                    loads = [n for n in ast.walk(fn) if isinstance(n, ast.Name) and n.id == t and isinstance(n.ctx, ast.Load)]
+                                    nxt = body[i + 1]
+                                    heads = [nxt] if isinstance(nxt, (ast.Assign, ast.AugAssign, ast.Expr, ast.Return)) else \
+                                        ([nxt.test] if isinstance(nxt, ast.If) else [])
+                                    if len(loads) == 1 and heads and any(n is loads[0] for h_ in heads for n in ast.walk(h_)):
+                                        _replace_node(nxt, loads[0], copy.deepcopy(st.value))
+                                        del body[i]
+                                        done = True
+                                        break
+                                if isinstance(st, ast.Assign) and len(st.targets) == 1 and isinstance(st.targets[0], ast.Name) and isinstance(st.value, ast.Name):
+                                    t, q = st.targets[0].id, st.value.id
+                                    if is_made(t) and stores.get(t) == 1 and t not in params and t != q and \
+                                            ((q in params and not stores.get(q)) or (q not in params and stores.get(q) == 1)):
+                                        for n in ast.walk(fn):
+                                            if isinstance(n, ast.Name) and n.id == t and isinstance(n.ctx, ast.Load):
+                                                n.id = q
+                                        del body[i]
+                                        if not body:
+                                            body.append(ast.copy_location(ast.Pass(), st))
+                                        done = True
+                                        break
+                                    if is_made(q) and stores.get(q) == 1 and q not in params and t != q and \
+                                            sum(1 for n in ast.walk(fn) if isinstance(n, ast.Name) and n.id == q and isinstance(n.ctx, ast.Load)) == 1:
+                                        # `q__i1 = E; ...; t = q__i1` in one block, nothing in between mentions t: `t = E` where q__i1 was bound
+                                        js = [j for j in range(i) if isinstance(body[j], ast.Assign) and len(body[j].targets) == 1
+                                              and isinstance(body[j].targets[0], ast.Name) and body[j].targets[0].id == q]
+                                        if js and not any(isinstance(n, ast.Name) and n.id == t for b_ in body[js[-1] + 1:i] for n in ast.walk(b_)):
+                                            body[js[-1]].targets[0].id = t
+                                            del body[i]
+                                            done = True
+                                            break
+                                    if is_made(q) and not is_made(t) and stores.get(t) == 1 and stores.get(q) == 1 and t not in params and q not in params and t != q:
+                                        # the made name is given the name of its only copy
+                                        del body[i]
+                                        if not body:
+                                            body.append(ast.copy_location(ast.Pass(), st))
+                                        for n in ast.walk(fn):
+                                            if isinstance(n, ast.Name) and n.id == q:
+                                                n.id = t
+                                        done = True
+                                        break
+                            if done:
+                                break
+                        if done:
+                            break
+                    if not done:
+                        break
 
     def _drop_fully_inlined(self):
         for (mname, cname, name), h in self.helpers.items():
